@@ -125,7 +125,7 @@ class Ctx:
         if self.state == "special":
             # values that coincide exactly with the scalars / with each other / with zero, and mixed signs: results
             # contain exact zeros (of either sign), infinities and NaNs, which must be numpy's, bit for bit
-            sp_ = [self.scalar(i), 0.0, -self.scalar(i), 1.0, -0.0, self.scalar(i + 1), 2.0 ** -1074, -1.0]
+            sp_ = [self.scalar(i), 0.0, -self.scalar(i), 1.0, -0.0, self.scalar(i + 1), 2.0 ** -1074, -1.0, np.nan, np.inf, -np.inf]
             vals = vals.copy()
             for k in range(vals.size):
                 if k % 2 == 0:
@@ -426,7 +426,7 @@ def _face_part(ctx, res):
         for c in U.COMP[:ctx.d]:
             arr = getattr(f, c) / 8.0 + (0.0 if signed else 0.5)
             if special:     # values equal to the scalar operands, zeros of both signs, negatives
-                sp_ = [1.5, 0.0, -1.5, 0.75, -0.0, 1.0, -0.75, 2.0 ** -1074]
+                sp_ = [1.5, 0.0, -1.5, 0.75, -0.0, 1.0, -0.75, 2.0 ** -1074, np.nan, np.inf, -np.inf]
                 for k in range(0, arr.size, 2):
                     arr.flat[k] = sp_[(k // 2 + i) % len(sp_)]
             setattr(f, c, arr)
@@ -480,7 +480,7 @@ def _face_part(ctx, res):
         r = fn(a)
         res["evals"] += 1
         res["nontrivial"] += 1
-        if snap(a) != b4 or not all(np.array_equal(getattr(r, c), fn(getattr(a, c))) for c in U.COMP) or \
+        if snap(a) != b4 or not all(np.array_equal(getattr(r, c), fn(getattr(a, c)), equal_nan=True) for c in U.COMP) or \
                 any(np.size(getattr(r, c)) and np.shares_memory(getattr(r, c), getattr(a, c)) for c in U.COMP):
             F.append({"key": "C14:face_unary:%s" % name, "msg": "FaceVariable %s on %s wrong / not independent" % (name, ctx.gid), "detail": {}})
 
@@ -547,7 +547,7 @@ def _eval_part(ctx, res):
             for o in ops_:
                 freeze(o, False)
             want = fsum(*[np.array(o.value) for o in ops_])
-            if r is None or not np.array_equal(np.asarray(r.value), want) or [snap(o) for o in ops_] != before \
+            if r is None or not np.array_equal(np.asarray(r.value), want, equal_nan=True) or [snap(o) for o in ops_] != before \
                     or r.BCs is ops_[0].BCs or bc_bytes(r.BCs) != bc_bytes(ops_[0].BCs):
                 F.append({"key": "C14:%s:n=%d" % (nm, n), "msg": "%s with %d arguments on %s: wrong values, changed operand or BCs not carried from the first argument"
                                                           % (nm, n, ctx.gid), "detail": {}})
@@ -563,7 +563,7 @@ def _eval_part(ctx, res):
         ok = r is not None and [snap(o) for o in ops_] == before
         if ok:
             for c in U.COMP:
-                if not np.array_equal(getattr(r, c), fsum(*[getattr(o, c) for o in ops_])):
+                if not np.array_equal(getattr(r, c), fsum(*[getattr(o, c) for o in ops_]), equal_nan=True):
                     ok = False
         if not ok:
             F.append({"key": "C14:faceeval:n=%d" % n, "msg": "faceeval with %d arguments on %s: wrong values or changed operand" % (n, ctx.gid), "detail": {}})
